@@ -241,6 +241,29 @@ def finish(pid, tier, seed, res, contract, t0, repo):
         print(f"VIOLATION property={pid} replay={ob['replay']}{tail}")
     if violations:
         return 1
+    if res.undecided and getattr(contract, 'FALLBACK_OBS', None) and getattr(contract, 'replay', None) and not getattr(res, '_fallback_done', False):
+        # Structural drift (lost anchor / construct outside the extractor's subset): the verifier cannot
+        # re-establish the contract on this tree. Fallback: replay the property's oracles natively on the
+        # REAL code. A failing input found this way is a confirmed violation (it cannot be a false alarm);
+        # nothing found => the run stays UNDECIDED (exit 2), never a pass.
+        res._fallback_done = True
+        for oid in contract.FALLBACK_OBS:
+            try:
+                info = contract.replay(dict(id=oid, engine='native-replay'), repo, seed)
+            except Exception as e:
+                info = None
+            if info and info.get('failing_input'):
+                rp = os.path.join(VERIF, 'replay', 'out', f"{pid}-fallback-{re.sub(r'[^A-Za-z0-9_.-]', '_', oid)}.json")
+                json.dump(dict(property=pid, obligation=oid, engine='native-replay (fallback after structural drift)',
+                               verifier_output='contract could not be re-established: ' + ' | '.join(res.undecided)[:3000],
+                               replay=info, tier=tier, seed=seed), open(rp, 'w'), indent=1)
+                print(f"structural drift: {res.undecided[0][:300]}")
+                print(f"failing input found by native replay of obligation {oid}: {json.dumps(info['failing_input'])[:600]}")
+                print(f"VIOLATION property={pid} replay={rp}")
+                ev['violations'] = 1
+                ev['coverage']['fallback'] = dict(obligation=oid, failing_input=info['failing_input'])
+                json.dump(ev, open(evp, 'w'), indent=1)
+                return 1
     if res.undecided:
         for u in res.undecided:
             print(f"UNDECIDED property={pid}: {u}")
